@@ -4,6 +4,7 @@ import (
 	"fmt"
 	"math/rand"
 	"reflect"
+	"strings"
 
 	am "github.com/hashicorp/go-argmapper"
 )
@@ -36,6 +37,46 @@ func runC10Special(c *CaseCtx, r *rand.Rand) (res CaseResult) {
 			res.violate("C06", "panic/convert-"+crashKey(fmt.Sprint(p)), fmt.Sprintf("panicked: %v", p), map[string]interface{}{"case": res.Key})
 		}
 	}()
+	if (c.Idx/10)%9 == 4 {
+		// a history of Converts to two DIFFERENT types that print alike (two
+		// function-local "unit" types), each with a value of exactly its
+		// type: every one agrees with calling an identity function of that
+		// type, whatever was converted before in this process
+		ta := reflect.TypeOf(sameNamedParamA()).In(0)
+		tb := reflect.TypeOf(sameNamedParamB()).In(0)
+		res.Key = "same-printing-target-types"
+		res.obs("family.same-printing-target-types", 1)
+		var hist []string
+		for k := 0; k < tierReps(c.Tier, 8, 20); k++ {
+			t, v := ta, reflect.ValueOf(int64(k+5)).Convert(ta).Interface()
+			if (k+c.Idx/90)%2 == 1 || r.Intn(3) == 0 {
+				t, v = tb, reflect.ValueOf(fmt.Sprintf("u%d", k)).Convert(tb).Interface()
+			}
+			hist = append(hist, fmt.Sprintf("%v(%v)", t.Kind(), v))
+			det := map[string]interface{}{"case": res.Key, "history": strings.Join(hist, " ; ")}
+			idf, ierr := am.NewFunc(reflect.MakeFunc(reflect.FuncOf([]reflect.Type{t}, []reflect.Type{t}, false), func(in []reflect.Value) []reflect.Value { return in }).Interface())
+			if ierr != nil {
+				res.Skip = "newfunc"
+				return res
+			}
+			var want interface{}
+			rr := idf.Call(am.Typed(v))
+			if rr.Err() == nil {
+				want = rr.Out(0)
+			}
+			got, err := am.Convert(t, am.Typed(v))
+			res.Evals += 2
+			if (err == nil) != (rr.Err() == nil) || !reflect.DeepEqual(got, want) {
+				res.violate("C10", "differs-from-identity-call", fmt.Sprintf("Convert(%v %v) returned (%#v, %v), the identity call (%#v, %v)", t, t.Kind(), got, firstLine(errStr(err)), want, firstLine(errStr(rr.Err()))), det)
+				return res
+			}
+			if err == nil && reflect.TypeOf(got) != t {
+				res.violate("C10", "wrong-type", fmt.Sprintf("Convert(%v %v) returned a %T (%v)", t, t.Kind(), got, reflect.TypeOf(got).Kind()), det)
+				return res
+			}
+		}
+		return res
+	}
 	if r.Intn(4) == 0 {
 		// the wanted interface type is only produced as a DIFFERENT interface
 		// type with the same method set (each implements the other),
